@@ -428,8 +428,9 @@ func (rtcmHandler *Handler) GetMessage(bitStream []byte) (*Message, error) {
 
 	// We have a complete message.
 
-	// Check the CRC.
-	errorCRC := CheckCRC(messageType, messageLength, bitStream)
+	// Check the CRC.  The bit stream may be longer than the message frame, so
+	// check just the frame, which is the part that's returned as the message.
+	errorCRC := CheckCRC(messageType, messageLength, bitStream[:expectedFrameLength])
 	if errorCRC != nil {
 		message := NewNonRTCM(bitStream)
 
